@@ -72,7 +72,7 @@ PerDocItems(r, d, i, nd) ==
 
 Check(r) ==
   IF ~AllResolvable(r.raw) THEN "skip"
-  ELSE CASE r.entry \in {"str", "multi"} -> Whole(r, Obs(r.raw))
+  ELSE CASE r.entry \in {"str", "str-ign", "str-opt", "multi"} -> Whole(r, Obs(r.raw))
          [] r.entry = "check-all" -> Whole(r, NoReplay(r.raw))
          [] r.entry = "read" -> PerDocItems(r, 1, 1, Len(DocStarts(r.raw)))
          [] OTHER -> "skip"
